@@ -102,10 +102,12 @@ pub fn c20() -> Check {
         scenarios: vec![
             Box::new(SqlScenario { name: "c20-faults", family: Family::Any, mode: Mode::Fault, need_reference: false, weight: 2, dynamic_filters: false, nlj_focus: false }),
             Box::new(crate::c10::RepartitionFaults),
+            Box::new(crate::c20store::ScanFaults),
+            Box::new(crate::c25::WriteFaults),
         ],
-        cases_quick: 16_000,
+        cases_quick: 20_000,
         cases_thorough: 400_000,
-        rule: "runs: generated queries with exactly one scripted fault whose position is swept by the generator: an input partition returns an error or panics at a random step, or (under a bounded pool that forces spilling) the k-th spill create/write/flush/finish/read fails (torn/sticky variants). Once the fault has fired the result must be an error (or the injected panic re-raised) or the complete expected result; never a truncated success, hang or foreign panic; afterwards the release invariants of C19. c20-repartition (one third of the runs): RepartitionExec (round-robin/hash/preserve_order, 1-8 outputs) over scripted inputs with one injected input error while a third of the outputs are dropped after 0-2 batches: every output read to its end must report the error. distinct/non-trivial as for C02",
+        rule: "runs: generated queries with exactly one scripted fault whose position is swept by the generator: an input partition returns an error or panics at a random step, an identity UDF wrapped around one column of a table fails at row n, or (under a bounded pool that forces spilling) the k-th spill create/write/flush/finish/read fails (torn/sticky variants). Once the fault has fired the result must be an error (or the injected panic re-raised) or the complete expected result; never a truncated success, hang or foreign panic; afterwards the release invariants of C19. c20-repartition (one third of the runs): RepartitionExec (round-robin/hash/preserve_order, 1-8 outputs) over scripted inputs with one injected input error while a third of the outputs are dropped after 0-2 batches: every output read to its end must report the error. c20-scan (a fifth): CSV / NDJSON / Parquet listing-table scans (1-3 files, byte-range repartitioned into 1-6 partitions, under scan / aggregate / sort / join / union / top-k queries) over the simulated object store in which the n-th GET fails before its body or after the first chunk of its body: error or the complete result of a fault-free store, never a truncated success. c20-sink (a fifth): the COPY / INSERT statements of C25 with one failing PUT, multipart part or multipart completion: the statement must fail, never report a row count. distinct/non-trivial as for C02",
         assumptions: L1_ASSUME.to_vec(),
         components: components(),
     }
